@@ -539,3 +539,15 @@ func init() {
 	// the model plugin's types have no secret-looking field names, so the real function returns nil as well.
 	reg(RepoModule+"/plugins/registry.findSecrets", pure(func(it *Interp, a []Value) Value { return Iface{} }))
 }
+
+func init() {
+	// gostdlib errors.E: fills Category, Type and Msg; file/line (runtime.Caller), time, tracing and metrics are dropped.
+	reg("github.com/gostdlib/base/errors.E", func(it *Interp, g *G, fr *Frame, a []Value, cc *ssa.CallCommon) (Value, status) {
+		t := it.namedType("github.com/gostdlib/base/errors", "Error")
+		e := zero(t).(StructV)
+		e[0] = a[1]
+		e[1] = a[2]
+		e[2] = a[3]
+		return e, stOK
+	})
+}
